@@ -22,7 +22,7 @@ type PairC12 struct {
 type CaseC12 struct {
 	Map       map[string]interface{} `json:"map"`
 	Pairs     []PairC12              `json:"pairs"`
-	Unrelated uint16                 `json:"unrelated_opts,omitempty"`
+	Unrelated uint32                 `json:"unrelated_opts,omitempty"`
 	FieldSep  string                 `json:"field_sep,omitempty"` // sub-key field separator in force (NewMap pairs always use ":")
 	Alias     *AliasSpec             `json:"alias,omitempty"`     // one container object gets a second parent in the receiver
 }
